@@ -4,7 +4,7 @@
 Require Extraction.
 Require Import ExtrOcamlBasic.
 From Coq Require Import NArith ZArith Ascii String.
-From PM Require Import Model.Varint Model.Directory Model.Iterate Model.TileId Gen.Generated Model.Header Model.FindTile Model.DirBuild Model.Resolver Model.Archive Model.Verify Model.Cluster Model.PathParse Model.PathSafe Model.Bucket Model.Http Model.Server Model.ServerRun Model.F32 Model.Extract Model.ExtractCmd Model.F64 Model.Edit Model.Sync Model.Convert Model.Region.
+From PM Require Import Model.Varint Model.Directory Model.Iterate Model.TileId Gen.Generated Model.Header Model.FindTile Model.DirBuild Model.DirBuildF32 Model.Resolver Model.Archive Model.Verify Model.Cluster Model.PathParse Model.PathSafe Model.Bucket Model.Http Model.Server Model.ServerRun Model.F32 Model.Extract Model.ExtractCmd Model.F64 Model.Edit Model.Sync Model.Convert Model.Region.
 From Flocq Require Import IEEE754.Bits.
 Extraction "model.ml"
   N.add N.mul N.sub N.div_eucl N.of_nat N.to_nat N.compare N.eqb Z.add Z.mul Z.div_eucl Z.of_N Z.to_N Z.opp
@@ -21,6 +21,6 @@ Extraction "model.ml"
   interior_ranges region_relevant region_header
   makesync_blocks sync_entries sync multi_ranges
   edit to_e7 of_e7 to_e7_pinned dec_to_f64 show_json crash_states metadata_edit_ops header_edit_ops fs_get run_limited apply_hjson
-  build_roots_leaves optimize_small
+  build_roots_leaves optimize_small optimize go_sizes
   find_tile walk_table tile_response depth_fuel
   serialize deserialize list_header Generated.ser_layout Generated.deser_layout.
